@@ -182,9 +182,18 @@ func handleExceptionSignal(vm *r.VM, blockModule *r.Module, catchBlock []*syntax
 	// try to find if the blockErr is an exception signal
 	exception, realErr := extractSignalValue(blockErr, zerr.SigTypeException)
 
-	// so, if the blockErr is not an exception signal, return it directly
 	if realErr != nil {
-		return nil, realErr
+		// runtime faults (e.g. division by zero, index out of range) and exceptions raised
+		// from native methods are exceptions of class 异常 as well
+		switch e := realErr.(type) {
+		case *zerr.RuntimeError:
+			exception = value.NewException(e.Error())
+		case *value.Exception:
+			exception = e
+		default:
+			// so, if the blockErr is not an exception at all, return it directly
+			return nil, realErr
+		}
 	}
 
 	// by default, we use "异常" to match *value.Exception type exceptions
